@@ -483,10 +483,41 @@ def rule_r9(ctx) -> RuleResult:
                     rr.ok(dotted, label + " bounded for-loop", {"loop": src, "reason": "count derived from the position of a node found on the stack"})
                     continue
                 raise AnalysisError("{}: unsupported pop loop {}".format(dotted, src))
-            # loop condition is itself a presence test
-            if have_kinds(lp.test):
-                rr.ok(dotted, label + " condition is _parser_have(...)", {"loop": unparse(lp.test)})
+            # loop condition is itself a presence test: `_parser_have(ctx, K)` or
+            # `any(x.kind in K for x in ctx.parser_stack)`
+            hk = have_kinds(lp.test)
+            presence_with_root = False
+            tt = lp.test
+            if not hk and isinstance(tt, ast.Call) and unparse(tt.func) == "any" and len(tt.args) == 1 \
+                    and isinstance(tt.args[0], ast.GeneratorExp) and unparse(tt.args[0].generators[0].iter) == "ctx.parser_stack":
+                el = tt.args[0].elt
+                if isinstance(el, ast.Compare) and isinstance(el.ops[0], ast.In) and unparse(el.left).endswith(".kind"):
+                    ks = P.kind_name(ctx, el.comparators[0])
+                    if ks:
+                        hk = [ks]
+            if hk and not any("ROOT" in g for g in hk):
+                rr.ok(dotted, label + " runs only while a non-ROOT kind is on the stack", {"loop": unparse(lp.test)})
                 continue
+            if hk:
+                presence_with_root = True
+            # `while len(ctx.parser_stack) > E` with E >= 1 never reaches the bottom
+            t = lp.test
+            if isinstance(t, ast.Compare) and len(t.ops) == 1 and isinstance(t.ops[0], ast.Gt) and unparse(t.left) == "len(ctx.parser_stack)":
+                e = t.comparators[0]
+                ge1 = isinstance(e, ast.Constant) and isinstance(e.value, int) and e.value >= 1
+                if isinstance(e, ast.Name):
+                    for n in walk_no_nested(fn):
+                        if isinstance(n, ast.For) and isinstance(n.target, ast.Name) and n.target.id == e.id and isinstance(n.iter, ast.Call) \
+                                and unparse(n.iter.func) == "range" and len(n.iter.args) == 3 \
+                                and isinstance(n.iter.args[1], ast.Constant) and n.iter.args[1].value >= 0 \
+                                and unparse(n.iter.args[2]) == "-1":
+                            ge1 = True
+                if ge1:
+                    rr.ok(dotted, label + " bounded below by a stack depth >= 1", {"loop": unparse(t)})
+                    continue
+                raise AnalysisError("{}: cannot bound `{}` away from the bottom of the stack (inconclusive)".format(dotted, unparse(t)))
+            if not (isinstance(t, ast.Constant) and t.value) and not presence_with_root:
+                raise AnalysisError("{}: pop loop with an unrecognised condition `{}` (inconclusive)".format(dotted, unparse(t)))
             # for every kind on top: does one iteration pop, and does it certainly leave the loop?
             ranges = _int_ranges(ctx, fn)
             pops_kind, ends, may_end = set(), set(), set()
@@ -495,6 +526,9 @@ def rule_r9(ctx) -> RuleResult:
                 o = w.run_block(lp.body, {(frozenset([k]), frozenset([]))})
                 if w.pops:
                     pops_kind.add(k)
+                    if k == "ROOT" and w.lost_precision and w.lost_precision[0].end_lineno <= w.pops[0][0].lineno:
+                        raise AnalysisError("{}: the walk loses track of the stack at `{}` before the pop (inconclusive)".format(
+                            dotted, unparse(w.lost_precision[0])[:60]))
                 if o.brk or o.ret:
                     may_end.add(k)
                 if (o.brk or o.ret) and not o.fall and not o.cont:
